@@ -78,22 +78,36 @@ def _first_repeat_wild(seq, in_repeat=False, pol=1, out=None):
 
 @classifier('repdot')
 def _repdot(v, params):
-    """REPDOT: the no-leading-dot guard of a wildcard that opens a repeated group is re-applied on every iteration,
-    so names with an *interior* dot are rejected (accepted, under a negated group) when DOTMATCH is off."""
+    """REPDOT: the segment-start guards of a wildcard that opens a repeated group are re-applied on every iteration:
+    without DOTMATCH names/segments with an *interior* dot are rejected; in path mode with DOTGLOB the `.`/`..` guard
+    rejects segments that merely end in '.' (accepted instead of rejected under a negated group)."""
     if v['kind'] != 'lang':
         return False
     inp = v['input']
-    if 'D' in inp['flags'] or 'E' not in inp['flags']:
+    fl = inp['flags']
+    if 'E' not in fl:
         return False
-    name = inp['name']
-    if isinstance(name, dict):
-        name = name['__bytes__']
-    if '.' not in name[1:] or name[:1] == '.':
-        return False
+    name = _name(v)
     seq = _ast(v)
-    if seq is None:
+    if seq is None or not name:
         return False
-    pols = _first_repeat_wild(_segment_of(seq, inp))
+    path = any(nd[0] == 'sep' for nd in seq) or inp.get('mode') == 'path' or v.get('path')
+    segs_n = [x for x in name.replace('\\', '/').split('/') if x] if (path or '/' in name) else [name]
+    if 'D' in fl:
+        import re as _re
+        if not any(_re.search(r'(?s).\.{1,2}\n?$', x) for x in segs_n):
+            return False
+    else:
+        if not any('.' in x[1:] and x[:1] != '.' for x in segs_n):
+            return False
+    pols = set()
+    cur = []
+    for nd in list(seq) + [('sep', 1, False)]:
+        if nd[0] == 'sep':
+            pols |= _first_repeat_wild(tuple(cur))
+            cur = []
+        else:
+            cur.append(nd)
     obs, exp = v['observed'].get('match'), v['expected'].get('match')
     if obs is False and exp is True:
         return 1 in pols
@@ -104,3 +118,55 @@ def _repdot(v, params):
 
 def _segment_of(seq, inp):
     return seq
+
+
+def _name(v):
+    n = v['input'].get('name')
+    if isinstance(n, dict):
+        n = n['__bytes__']
+    return n
+
+
+@classifier('nldiv')
+def _nldiv(v, params):
+    """NLDIV: `$` inside _GLOBSTAR_DIV also holds just before a final newline, so after a globstar (written, or the
+    implicit MATCHBASE prefix) the rest of the pattern may match a trailing '\\n' as if it were a segment of its own."""
+    if v['kind'] != 'lang':
+        return False
+    inp = v['input']
+    name = _name(v)
+    fl = inp['flags']
+    if not name or name[-1] != '\n' or len(name) < 2 or name[-2] in '/\\':
+        return False
+    has_g = ('X' in fl) or (('G' in fl or 'L' in fl) and '**' in inp['pattern'])
+    if not has_g:
+        return False
+    obs, exp = v['observed'].get('match'), v['expected'].get('match')
+    if obs == exp:
+        return False
+    # the pattern tail really treats the final newline as its own segment: inserting a separator changes nothing
+    try:
+        from wcmatch import glob as G
+        from .props.c02 import flags_of
+        alt = G.globmatch(name[:-1] + '/' + '\n', inp['pattern'], flags=flags_of(fl))
+    except Exception:
+        return False
+    return alt == obs
+
+
+@classifier('nldir')
+def _nldir(v, params):
+    """NLDIR: `$` inside _NO_DIR (the guard keeping wildcards off `.`/`..`) also holds before a final newline, so a
+    last segment '.\\n' or '..\\n' is treated like '.'/'..' by wildcards."""
+    if v['kind'] != 'lang':
+        return False
+    name = _name(v)
+    if not name:
+        return False
+    seg = name.replace('\\', '/').rsplit('/', 1)[-1]
+    if seg not in ('.\n', '..\n'):
+        return False
+    obs, exp = v['observed'].get('match'), v['expected'].get('match')
+    if obs is False and exp is True:
+        return True
+    return '!(' in v['input']['pattern'] and obs is True and exp is False
